@@ -16,6 +16,8 @@ import (
 // for every enforcement configuration / client type / flow / binding, against a reference
 // predicate written from the property statement.
 
+const c03AttackerV = "attacker-verifier-0123456789-0123456789-0123456789-xyz"
+
 const pkceV0 = "v0-abcdefghijklmnopqrstuvwxyz0123456789-._~AB" // 45 chars, well-formed
 
 func s256(v string) string {
@@ -46,7 +48,7 @@ var c03Kinds = []string{"correctV", "noV", "wrongV", "crossV", "short42", "long1
 
 // extended alphabet: the same attempts with unusual grant_type spellings (a token request is a
 // token request however its grant_type list is written)
-var c03KindsExt = append(append([]string(nil), c03Kinds...), "noV/gt=extra", "noV/gt=dup", "wrongV/gt=extra", "noV/gt=case", "noV/fault", "wrongV/fault")
+var c03KindsExt = append(append([]string(nil), c03Kinds...), "noV/gt=extra", "noV/gt=dup", "wrongV/gt=extra", "noV/gt=case", "noV/fault", "wrongV/fault", "correctV/abandoned", "correctV/fault-invalidate")
 
 // third alphabet: unusual spellings of the code itself (whatever string redeems the code must satisfy the binding)
 var c03KindsSpell = []string{"correctV", "noV", "wrongV", "noV/code=trail-space", "noV/code=lead-space", "noV/code=newline", "noV/code=tab", "noV/code=crlf", "wrongV/code=trail-space", "noV/code=no-prefix", "noV/code=upper-prefix"}
@@ -117,8 +119,10 @@ func c03GrantType(kind string) (string, string) {
 			return kind[:i], "Authorization_Code"
 		}
 	}
-	if strings.HasSuffix(kind, "/fault") {
-		return strings.TrimSuffix(kind, "/fault"), "authorization_code"
+	for _, sfx := range []string{"/fault", "/abandoned", "/fault-invalidate"} {
+		if strings.HasSuffix(kind, sfx) {
+			return strings.TrimSuffix(kind, sfx), "authorization_code"
+		}
 	}
 	return kind, "authorization_code"
 }
@@ -145,6 +149,8 @@ func c03Verifier(binding, kind string) (string, bool) {
 		return strings.Repeat("w", 43), true
 	case "crossV":
 		return cross, true
+	case "attackerV":
+		return c03AttackerV, true
 	case "short42":
 		if len(correct) >= 42 {
 			return correct[:42], true
@@ -223,7 +229,25 @@ func c03RunSeq(c c03Case, res *WRes) (outcomes []string) {
 			return nil
 		}
 	}
-	ao := w.Authorize(params, AuthzOpts{})
+	var ao *Obs
+	if c.Flow == "par-shadow" {
+		// the request (with its challenge) is pushed; the front-channel leg carries another challenge, which must not
+		// replace the pushed one
+		po := w.PAR(params, w.AuthFor(c.Client))
+		ru := po.Str("request_uri")
+		if ru == "" {
+			res.class("authz:push-refused:" + po.Class())
+			return []string{"no-code"}
+		}
+		q := url.Values{"client_id": {c.Client}, "request_uri": {ru}, "code_challenge": {s256(c03AttackerV)}}
+		if method != "" {
+			// only parameters that were pushed are contradicted (adding one that was not pushed is not pinned: C17)
+			q.Set("code_challenge_method", "S256")
+		}
+		ao = w.Authorize(q, AuthzOpts{})
+	} else {
+		ao = w.Authorize(params, AuthzOpts{})
+	}
 	w.Store.Before = nil
 	res.Trans++
 	code := ao.Param("code")
@@ -266,7 +290,23 @@ func c03RunSeq(c c03Case, res *WRes) (outcomes []string) {
 				return nil
 			}
 		}
-		o := w.Token(form, w.AuthFor(c.Client))
+		if strings.HasSuffix(kind, "/fault-invalidate") {
+			// the verifier is checked, then the invalidation of the code fails with a transient storage error
+			w.Store.Before = func(call *Call) error {
+				if call.Name == "InvalidateAuthorizeCodeSession" {
+					return fmt.Errorf("storage: connection reset")
+				}
+				return nil
+			}
+		}
+		var o *Obs
+		if strings.HasSuffix(kind, "/abandoned") {
+			// the request is validated (NewAccessRequest) and never completed: nothing was issued, the code is unspent
+			err := w.TokenAbandoned(form, w.AuthFor(c.Client))
+			o = &Obs{Err: "abandoned", GoErr: errString(err)}
+		} else {
+			o = w.Token(form, w.AuthFor(c.Client))
+		}
 		w.Store.Before = nil
 		res.Trans++
 		issued := o.Str("access_token") != "" || o.Str("refresh_token") != "" || o.Str("id_token") != ""
@@ -291,7 +331,7 @@ func c03RunSeq(c c03Case, res *WRes) (outcomes []string) {
 			}
 			break // the code is consumed; replays are C01's subject
 		}
-		if !issued && allowed && c.Binding != "none" {
+		if !issued && allowed && c.Binding != "none" && !strings.HasSuffix(kind, "/abandoned") && !strings.HasSuffix(kind, "/fault-invalidate") {
 			if failedBefore {
 				res.DontCare++ // property does not demand that correctV still works after failures
 				res.note("correct_refused_after_failures")
@@ -398,6 +438,9 @@ func init() {
 							jobs = append(jobs, c03Case{Enforce: enf, Plain: plain, Client: cl, Flow: fl, Binding: b, Depth: depth})
 							jobs = append(jobs, c03Case{Enforce: enf, Plain: plain, Client: cl, Flow: fl, Binding: b, Depth: depth - 1, Kinds: c03KindsExt})
 							jobs = append(jobs, c03Case{Enforce: enf, Plain: plain, Client: cl, Flow: fl, Binding: b, Depth: depth - 2, Kinds: c03KindsSpell})
+							if fl == "code" && b != "none" {
+								jobs = append(jobs, c03Case{Enforce: enf, Plain: plain, Client: cl, Flow: "par-shadow", Binding: b, Depth: depth - 2, Kinds: append(append([]string(nil), c03Kinds...), "attackerV")})
+							}
 							for _, af := range c03AuthzFaults {
 								if af == "CreateOpenIDConnectSession" && fl != "hybrid" {
 									continue
@@ -409,7 +452,7 @@ func init() {
 				}
 			}
 		}
-		r.Bounds = map[string]any{"attempt_sequence_depth": depth, "attempt_kinds": c03Kinds, "extended_kinds_to_depth": depth - 1, "extended_kinds": c03KindsExt, "code_spelling_kinds_to_depth": depth - 2, "code_spelling_kinds": c03KindsSpell, "authorization_time_faults_to_depth": depth - 2, "authorization_time_faults": c03AuthzFaults, "bindings": c03Bindings,
+		r.Bounds = map[string]any{"attempt_sequence_depth": depth, "attempt_kinds": c03Kinds, "extended_kinds_to_depth": depth - 1, "extended_kinds": c03KindsExt, "code_spelling_kinds_to_depth": depth - 2, "code_spelling_kinds": c03KindsSpell, "authorization_time_faults_to_depth": depth - 2, "authorization_time_faults": c03AuthzFaults, "pushed_request_with_foreign_challenge_on_the_front_channel": fmt.Sprintf("flow par-shadow, attempt kinds + the attacker's verifier, to depth %d", depth-2), "bindings": c03Bindings,
 			"enforcement": []string{"off", "public", "all"}, "plain": []bool{false, true}, "clients": []string{"P(public)", "A(confidential)"}, "flows": []string{"code", "hybrid"}}
 		r.Rule = "every sequence of <=depth redemption attempts (7 kinds) on one code, for every enforcement x plain x client x flow x binding; a case is one executed history; distinct non-trivial = distinct (config, sequence, outcome vector) where a code was issued"
 		r.Assumptions = []string{"reference predicate: tokens may be issued only for a well-formed verifier transforming to the bound challenge under the bound method (or no challenge and no applicable enforcement)",
